@@ -534,3 +534,174 @@ class CheckShapeStream(Stream):
 
     def stats(self, case, impl, model):
         return {"stream": "chk", "chk_out": model.get("err", "ok"), "chk_pert": case["pert"], "chk_dtype": case["dtype"]}
+
+
+# ---------------------------------------------------------------------------------------------
+# C06 (also the validation primitive of C08 and C20): timeresp._check_convert_array
+# ---------------------------------------------------------------------------------------------
+
+class CCAStream(Stream):
+    name = "cca"
+    rule = ("_check_convert_array(in_obj, legal_shapes, msg, squeeze, transpose) called directly: 0-d to 3-d "
+            "arrays with axis lengths 1..3 of dtype int64 / float64 / complex128 (numeric) and bool / uint8 / "
+            "str / object (rejected), Python scalars, nested lists; legal-shape lists of the call sites "
+            "([(n,), (n, 1)], [('any',), (1, 'any')], [(k,), (1, k)], [(m, k)]) around the actual shape "
+            "(equal, off by one, transposed) and random ones with jokers; both flags")
+    DTYPES = {"i": np.int64, "f": np.float64, "c": np.complex128}
+    OTHER = ("bool", "uint8", "str", "object")
+
+    def gen_legal(self, rng, shape):
+        n = shape[0] if shape else rng.randint(1, 3)
+        k = shape[-1] if shape else rng.randint(1, 3)
+        r = rng.random()
+        if r < 0.2:
+            n2 = n + rng.choice([0, 0, 0, 1, -1])
+            return [[n2], [n2, 1]]
+        if r < 0.35:
+            return [["any"], [1, "any"]]
+        if r < 0.5:
+            k2 = k + rng.choice([0, 0, 1])
+            return [[k2], [1, k2]]
+        if r < 0.65:
+            return [[n + rng.choice([0, 0, 1]), k + rng.choice([0, 0, -1])]]
+        if r < 0.75:
+            return [list(reversed(shape))] if shape else [["any", "any"], [2]]
+        out = []
+        for _ in range(rng.randint(0, 3)):
+            out.append([rng.choice(["any", 1, 2, 3]) if rng.random() < 0.8 else rng.choice(shape or [1])
+                        for _ in range(rng.choice([len(shape), len(shape), rng.randint(0, 3)]))])
+        return out
+
+    def generate(self, rng, tier):
+        out = []
+        for _ in range(400 if tier == "quick" else 6000):
+            nd = rng.choice([0, 0, 1, 1, 1, 2, 2, 2, 3])
+            shape = [rng.randint(1, 3) for _ in range(nd)]
+            size = int(np.prod(shape)) if shape else 1
+            kind = rng.choice(["i", "f", "c", "i", "f", "o"])
+            case = {"sel": "cca", "shape": shape, "data": [rng.randint(-9, 9) for _ in range(size)],
+                    "kind": kind, "other": rng.choice(self.OTHER),
+                    "form": rng.choice(["array", "array", "list"]),
+                    "legal": self.gen_legal(rng, shape), "sq": rng.randint(0, 1), "tr": rng.randint(0, 1)}
+            out.append(case)
+        return out
+
+    def corpus(self):
+        return [{"sel": "cca", "shape": [3, 1], "data": [7, 8, 9], "kind": "i", "other": "bool", "form": "array",
+                 "legal": [[3], [3, 1]], "sq": 1, "tr": 0},
+                {"sel": "cca", "shape": [], "data": [5], "kind": "i", "other": "bool", "form": "list",
+                 "legal": [["any"], [2, 2]], "sq": 0, "tr": 0},
+                {"sel": "cca", "shape": [2, 3], "data": [1, 2, 3, 4, 5, 6], "kind": "f", "other": "bool",
+                 "form": "array", "legal": [[3, "any"]], "sq": 0, "tr": 1},
+                {"sel": "cca", "shape": [1, 1], "data": [4], "kind": "f", "other": "bool", "form": "array",
+                 "legal": [["any", 1]], "sq": 1, "tr": 0},
+                {"sel": "cca", "shape": [2], "data": [1, 0], "kind": "o", "other": "uint8", "form": "array",
+                 "legal": [[2]], "sq": 0, "tr": 0}]
+
+    def line(self, case):
+        lst = lambda xs: "%d%s" % (len(xs), "".join(" %s" % x for x in xs))
+        return "sel cca %s %s %s %d %s %d %d" % (
+            case["kind"], lst(case["shape"]), lst(case["data"]), len(case["legal"]),
+            " ".join(lst(s) for s in case["legal"]), case["sq"], case["tr"])
+
+    def obj(self, case):
+        shape, data = tuple(case["shape"]), case["data"]
+        if case["kind"] == "o":
+            o = case["other"]
+            if o == "bool":
+                a = np.array([bool(v % 2) for v in data]).reshape(shape)
+            elif o == "uint8":
+                a = np.array([abs(v) for v in data], dtype=np.uint8).reshape(shape)
+            elif o == "str":
+                a = np.array([str(v) for v in data]).reshape(shape)
+            else:
+                a = np.array([None] * len(data), dtype=object).reshape(shape)
+            return a
+        a = np.array(data, dtype=self.DTYPES[case["kind"]]).reshape(shape)
+        if case["form"] == "list":
+            return a.tolist()          # nested lists / a Python scalar of the same element type
+        return a
+
+    def impl(self, case):
+        from control.timeresp import _check_convert_array
+        import warnings
+        legal = [tuple(s) for s in case["legal"]]
+        x = self.obj(case)
+        keep = np.array(x, copy=True) if isinstance(x, np.ndarray) else None
+        try:
+            with warnings.catch_warnings():
+                warnings.simplefilter("ignore")
+                r = _check_convert_array(x, legal, "msg: ", squeeze=bool(case["sq"]), transpose=bool(case["tr"]))
+        except Exception as e:  # noqa
+            return {"err": err_kind(e), "exc": "%s: %s" % (type(e).__name__, str(e)[:120])}
+        if keep is not None and not (x.shape == keep.shape and bool((x == keep).all())):
+            return {"err": "other:mutated", "exc": "the caller's array was changed"}
+        k = r.dtype.kind if r.dtype.kind in "ifc" else "o"
+        flat = np.asarray(r).reshape(-1)
+        vals = [int(round(float(np.real(v)))) for v in flat]
+        if not all(float(np.real(v)) == w and float(np.imag(v)) == 0 for v, w in zip(flat, vals)):
+            return {"err": "other:value", "exc": "non-integer element %r" % (flat,)}
+        return {"ok": [k, list(r.shape), vals]}
+
+    def parse_model(self, case, out):
+        t = out.split()
+        if t[0] != "ok":
+            return {"err": t[1]}
+        nd = int(t[2])
+        shape = [int(v) for v in t[3:3 + nd]]
+        cnt = int(t[3 + nd])
+        return {"ok": [t[1], shape, [int(v) for v in t[4 + nd:4 + nd + cnt]]]}
+
+    def oracle(self, case):
+        """the documented behaviour, computed independently with NumPy on the shapes"""
+        if case["kind"] == "o":
+            return {"err": "badArg"}
+        a = np.array(case["data"], dtype=float).reshape(tuple(case["shape"]))
+        kind = case["kind"]
+        if case["tr"]:
+            a = a.T
+        if a.ndim == 0:
+            for s in case["legal"]:
+                if "any" not in s:
+                    a = np.full(tuple(s), float(a))
+                    kind = "f"
+                    break
+        ok = any(len(s) == a.ndim and all(d == "any" or d == n for d, n in zip(s, a.shape)) for s in case["legal"])
+        if not ok:
+            return {"err": "badArg"}
+        if case["sq"]:
+            a = np.squeeze(a)
+            if a.ndim == 0:
+                a = a.reshape((1,))
+        return {"ok": [kind, list(a.shape), [int(v) for v in a.reshape(-1)]]}
+
+    def compare(self, case, impl, model):
+        same = lambda a, b: a.get("ok") == b.get("ok") and a.get("err") == b.get("err")
+        if same(impl, model):
+            return Verdict(AGREE)
+        want = self.oracle(case)
+        call = "_check_convert_array(%s %s %s data=%s, %s, squeeze=%s, transpose=%s)" % (
+            case["kind"] if case["kind"] != "o" else case["other"], case["form"], case["shape"], case["data"],
+            case["legal"], bool(case["sq"]), bool(case["tr"]))
+        feats = {"kind": "cca", "dtype": case["kind"], "ndim": len(case["shape"]), "sq": case["sq"], "tr": case["tr"],
+                 "got": impl.get("err", "ok"), "want": want.get("err", "ok")}
+        if not same(impl, want):
+            return Verdict(VIOLATES, "%s gives %s, documented validation: %s" % (call, impl, want), feats)
+        return Verdict(DIFFERS, "%s: implementation %s as documented, model %s" % (call, impl, model), feats)
+
+    def nontrivial(self, case, model):
+        return True
+
+    def stats(self, case, impl, model):
+        return {"stream": "cca", "cca_out": model.get("err", "ok") if "err" in model else "ok",
+                "cca_ndim": len(case["shape"]), "cca_kind": case["kind"], "cca_flags": "sq%d tr%d" % (case["sq"], case["tr"])}
+
+    def shrink(self, case):
+        out = []
+        if len(case["legal"]) > 1:
+            for i in range(len(case["legal"])):
+                out.append(dict(case, legal=case["legal"][:i] + case["legal"][i + 1:]))
+        for f in ("sq", "tr"):
+            if case[f]:
+                out.append(dict(case, **{f: 0}))
+        return out
